@@ -233,7 +233,18 @@ def impl_fit(case):
         fitter = make_fitter(d, case)
         for w in case.get('warmup', []):          # other sources the same Fitter fitted before (their results are not examined)
             fitter.fit(make_source(w))
-        info = fitter.fit(make_source(case['src']))
+        if case.get('edited_from'):      # the SAME Source object was fitted (and printed) in an earlier state and then edited element by element
+            s = make_source(case['edited_from'])
+            fitter.fit(s)
+            str(s)
+            for i in range(len(case['src']['flags'])):
+                s.valid[i] = case['src']['flags'][i]
+                s.flux[i] = case['src']['flux'][i]
+                s.error[i] = case['src']['err'][i]
+            s.name = case['src']['name']
+            info = fitter.fit(s)
+        else:
+            info = fitter.fit(make_source(case['src']))
         out = info_out(info, fitter)
         if case.get('resort'):       # FitInfo.sort() is public: sorting a result that is already sorted must leave every row describing one model
             import copy
